@@ -729,9 +729,13 @@ impl Property for C19 {
     fn id(&self) -> &'static str {
         "C19"
     }
-    fn generate(&self, rng: &mut Rng, _tier: Tier) -> Box<dyn Case> {
+    fn generate(&self, rng: &mut Rng, tier: Tier) -> Box<dyn Case> {
         let mut cfg = GenCfg::swarm(rng);
         cfg.size = *rng.pick(&[2usize, 4, 6, 10]);
+        if tier == Tier::Thorough && rng.pct(35) {
+            // the thorough tier also explores larger programs
+            cfg.size *= 2;
+        }
         cfg.tron = false;
         cfg.errors = false;
         cfg.fns = rng.pct(60);
